@@ -339,6 +339,12 @@ fn call_size(rng: &mut Rng, w: u32, cap: usize) -> usize {
 
 /// > 4 GiB of valid traffic with W = 2^32 - 1: reaches the counter arithmetic.
 fn volume_run(server: bool, windows: u64, out: &mut Out) {
+    volume_run_w(server, 0xFFFF_FFFF, windows * 0xFFFF_FFFFu64, out)
+}
+
+/// Window `w`, then at least `total` bytes in 16 MiB calls: every acknowledgement in exactly the
+/// call that crosses the window, with the right count, also after the total passes 2^32.
+pub fn volume_run_w(server: bool, w: u32, total: u64, out: &mut Out) {
     out.eval(1);
     rml_rtmp::verif_hooks::set_clock_ms(Some(5));
     let mut enc = Encoder::new();
@@ -355,7 +361,6 @@ fn volume_run(server: bool, windows: u64, out: &mut Out) {
     } else {
         Sess::Client(ClientSession::new(ClientSessionConfig::new()).expect("new").0)
     };
-    let w: u32 = 0xFFFF_FFFF;
     let mut first = enc.encode_simple(&Msg { type_id: 1, msid: 0, ts: 0, data: 0x7FFF_FFFFu32.to_be_bytes().to_vec() }, 2);
     enc.chunk_size = 0x7FFF_FFFF;
     first.extend(enc.encode_simple(&Msg { type_id: 5, msid: 0, ts: 0, data: w.to_be_bytes().to_vec() }, 2));
@@ -427,7 +432,7 @@ fn volume_run(server: bool, windows: u64, out: &mut Out) {
     }
     // 2^32 - 1 bytes and a bit (thorough: twice that): the acknowledgement(s) must appear in
     // exactly the call that crosses the window, none early
-    let blocks = (windows * (w as u64) / block.len() as u64) + 3;
+    let blocks = (total / block.len() as u64) + 3;
     for _ in 0..blocks {
         if !step(&mut sess, &block, true, &mut outstanding, &mut acks_seen, fed, out) {
             return;
@@ -450,19 +455,25 @@ impl Check for C17 {
         "C17"
     }
     fn plan(&self, tier: Tier) -> Plan {
-        let mut p = Plan::new(2 + Self::exhaustive_cases() + tier.pick(6_000, 3_000_000), tier.pick(35.0, 420.0));
-        p.mandatory = 2 + Self::exhaustive_cases();
+        let mut p = Plan::new(4 + Self::exhaustive_cases() + tier.pick(6_000, 3_000_000), tier.pick(35.0, 420.0));
+        p.mandatory = 4 + Self::exhaustive_cases();
         p.cpu_budget_s = 240.0;
         p
     }
     fn run_case(&self, tier: Tier, k: u64, rng: &mut Rng, out: &mut Out) {
         let _cg = ClockGuard;
+        if k == 2 || k == 3 {
+            // acknowledgements every GiB, continuing past a total of 2^32 bytes received
+            volume_run_w(k == 2, 1 << 30, (1u64 << 32) + (300 << 20), out);
+            out.sample(|| json!({"kind": "volume run", "window": 1u32 << 30, "session": if k == 2 {"server"} else {"client"}, "bytes": "2^32 + 300 MiB in 16 MiB calls"}));
+            return;
+        }
         if k < 2 {
             volume_run(k == 0, tier.pick(1, 2), out);
             out.sample(|| json!({"kind": "volume run", "window": 0xFFFF_FFFFu32, "session": if k == 0 {"server"} else {"client"}, "bytes": "(2^32-1) + 48 MiB in 16 MiB calls (thorough: 2 x (2^32-1) + 48 MiB)"}));
             return;
         }
-        let k2 = k - 2;
+        let k2 = k - 4;
         if k2 < Self::exhaustive_cases() {
             // W = 1..64, every call-size pattern of length <= 4 over {0, 1, W-1, W, W+1}
             let w = (k2 / 2 + 1) as u32;
@@ -532,7 +543,7 @@ impl Check for C17 {
         out.sample(|| json!({"session": if server {"server"} else {"client"}, "prefix_state": prefix, "announcements(call,W)": ann, "call_sizes": calls}));
     }
     fn rule(&self) -> String {
-        "both session kinds; the peer stream is reference-encoded: WindowAcknowledgement(W) at the start of a chosen call followed by valid filler traffic (ping requests/responses, acknowledgements, stream-begin and the other user-control events, set-buffer-length, unknown type-22 messages, set-peer-bandwidth of all three limit types with sizes around typical windows, abort, set-chunk-size). Exhaustive: W = 1..64 x every call-size pattern of length 1..4 over {0, 1, W-1, W, W+1} x {server, client} (99,840 histories). Sampled (half of them starting from a session in one of 10 state classes per kind reached by a valid prefix without a window announcement, the client with its own configured window in {1, 100, 5000, 2.5M, 2^30}; first announcement in call 0-3; a third of those also carry protocol traffic - answers to the client's requests with matching, stale and unknown transaction ids, status messages, a peer's connect/createStream/publish/play/closeStream/deleteStream - which may change the session's state but not its byte accounting): W from {1..64, 65..1000, 10^3..10^6, 2^24, 2^31, 2^32-1, 2.5M}, 2-40 calls with sizes from {0,1,W-1,W,W+1,2W+3,random} (capped at 100,000 bytes), window re-announcements mid-stream. Volume: W = 2^32-1 and (2^32-1) + 48 MiB bytes (thorough: 2 x (2^32-1) + 48 MiB) in 16 MiB calls for each session kind. The acknowledgements of every call are extracted by independently decoding the returned packets. distinct = (session kind, window class, #announcements, #calls).".to_string()
+        "both session kinds; the peer stream is reference-encoded: WindowAcknowledgement(W) at the start of a chosen call followed by valid filler traffic (ping requests/responses, acknowledgements, stream-begin and the other user-control events, set-buffer-length, unknown type-22 messages, set-peer-bandwidth of all three limit types with sizes around typical windows, abort, set-chunk-size). Exhaustive: W = 1..64 x every call-size pattern of length 1..4 over {0, 1, W-1, W, W+1} x {server, client} (99,840 histories). Sampled (half of them starting from a session in one of 10 state classes per kind reached by a valid prefix without a window announcement, the client with its own configured window in {1, 100, 5000, 2.5M, 2^30}; first announcement in call 0-3; a third of those also carry protocol traffic - answers to the client's requests with matching, stale and unknown transaction ids, status messages, a peer's connect/createStream/publish/play/closeStream/deleteStream - which may change the session's state but not its byte accounting): W from {1..64, 65..1000, 10^3..10^6, 2^24, 2^31, 2^32-1, 2.5M}, 2-40 calls with sizes from {0,1,W-1,W,W+1,2W+3,random} (capped at 100,000 bytes), window re-announcements mid-stream. Volume: W = 2^30 and 2^32 + 300 MiB bytes for each session kind (acknowledgements every GiB, past a total of 2^32 bytes); W = 2^32-1 and (2^32-1) + 48 MiB bytes (thorough: 2 x (2^32-1) + 48 MiB) in 16 MiB calls for each session kind. The acknowledgements of every call are extracted by independently decoding the returned packets. distinct = (session kind, window class, #announcements, #calls).".to_string()
     }
     fn assumptions(&self) -> Vec<String> {
         vec![
